@@ -261,17 +261,34 @@ Context {S : Type} (h : handler S).
 Notation world := (world (S := S)).
 Notation st := (st (S := S)).
 
+(* the trace (newest first) is a consistent history of the target: it starts from empty tables, every
+   frame delivered was processed by [tstep] in the state the previous event left, and the TCP
+   connection dropping ([TVanish], a socket close the target is notified of) empties the tables *)
+Fixpoint chained (tr : list (tev (S := S))) (t : tstate S) : Prop :=
+  match tr with
+  | [] => t_sessions t = [] /\ t_conns t = []
+  | e :: older =>
+      match e with
+      | TDeliver b fr rep =>
+          chained older b /\ inj_ok (t_inject b) /\ t = fst (tstep h b fr) /\ rep = snd (tstep h b fr)
+      | TVanish => exists b, chained older b /\ t = tclosed b
+      | TSockClose n => exists b, chained older b /\ t = (if n then tclosed b else b)
+      | TConnect _ => chained older t
+      end
+  end.
+
 (* holds of every world a run can reach, whatever the faults *)
 Record WGood (cfg0 : tcfg) (w : world) : Prop := {
   wg_cfg : t_cfg (w_t w) = cfg0;
   wg_inj : inj_ok (t_inject (w_t w));
-  wg_closed : w_open w = false -> t_sessions (w_t w) = [] /\ t_conns (w_t w) = [] }.
+  wg_closed : w_open w = false -> t_sessions (w_t w) = [] /\ t_conns (w_t w) = [];
+  wg_chain : chained (w_trace w) (w_t w) }.
 
 Ltac wproj := cbn [w_t w_open w_queue w_dead w_rands w_trace w_nconnect w_nsend w_nrecv w_nclose fst snd].
 
 Lemma sock_connect_w cfg0 flt (w : world) : WGood cfg0 w -> WGood cfg0 (fst (sock_connect flt w)).
 Proof.
-  intros [A B C]. unfold sock_connect. destruct (flookup (w_nconnect w) (f_connect flt)); wproj.
+  intros [A B C D]. unfold sock_connect. destruct (flookup (w_nconnect w) (f_connect flt)); wproj.
   - split; wproj; assumption.
   - split; wproj; try assumption. intros; discriminate.
 Qed.
@@ -280,18 +297,20 @@ Lemma sock_send_w cfg0 flt (w : world) fr : WGood cfg0 w ->
   WGood cfg0 (fst (sock_send h flt w fr)) /\ w_open (fst (sock_send h flt w fr)) = w_open w
   /\ w_rands (fst (sock_send h flt w fr)) = w_rands w.
 Proof.
-  intros [A B C]. unfold sock_send.
+  intros [A B C D]. unfold sock_send.
   destruct (negb (w_open w) || w_dead w) eqn:E1; wproj.
   { split; [split; wproj; assumption | split; reflexivity]. }
   assert (w_open w = true) as Ho by (destruct (w_open w); [reflexivity | discriminate]).
   destruct (fmem (w_nsend w) (f_vanish flt)); wproj.
-  { split; [split; wproj; try assumption; rewrite Ho; intros; discriminate | split; reflexivity]. }
+  { split; [split; wproj; try assumption; [rewrite Ho; intros; discriminate | cbn [chained]; exists (w_t w); auto]
+           | split; reflexivity]. }
   destruct (flookup (w_nsend w) (f_send flt)); wproj.
   { split; [split; wproj; assumption | split; reflexivity]. }
   pose proof (tstep_effect h (w_t w) fr B) as (T1 & T2 & _).
-  destruct (tstep h (w_t w) fr) as [t' rep]. cbn [fst] in *.
+  destruct (tstep h (w_t w) fr) as [t' rep] eqn:Et. cbn [fst] in *.
   destruct (flookup (w_nsend w) (f_send_after flt)); wproj;
-    (split; [split; wproj; [congruence | assumption | rewrite Ho; intros; discriminate] | split; reflexivity]).
+    (split; [split; wproj; [congruence | assumption | rewrite Ho; intros; discriminate
+                             | cbn [chained]; rewrite Et; auto] | split; reflexivity]).
 Qed.
 
 Lemma sock_recv_w cfg0 flt (w : world) : WGood cfg0 w ->
@@ -299,7 +318,7 @@ Lemma sock_recv_w cfg0 flt (w : world) : WGood cfg0 w ->
   /\ w_rands (fst (sock_recv flt w)) = w_rands w /\ w_t (fst (sock_recv flt w)) = w_t w
   /\ w_trace (fst (sock_recv flt w)) = w_trace w /\ w_dead (fst (sock_recv flt w)) = w_dead w.
 Proof.
-  intros [A B C]. unfold sock_recv.
+  intros [A B C D]. unfold sock_recv.
   destruct (negb (w_open w) || w_dead w); wproj; [split; [split; wproj; assumption | repeat split] |].
   destruct (flookup (w_nrecv w) (f_recv flt)); wproj; [split; [split; wproj; assumption | repeat split] |].
   destruct (w_queue w); wproj; (split; [split; wproj; assumption | repeat split]).
@@ -310,7 +329,7 @@ Lemma sock_close_w cfg0 flt (w : world) : WGood cfg0 w ->
   /\ t_sessions (w_t (fst (sock_close flt w))) = [] /\ t_conns (w_t (fst (sock_close flt w))) = []
   /\ w_queue (fst (sock_close flt w)) = [].
 Proof.
-  intros [A B C]. unfold sock_close.
+  intros [A B C D]. unfold sock_close.
   assert (t_sessions (if w_open w then tclosed (w_t w) else w_t w) = []
           /\ t_conns (if w_open w then tclosed (w_t w) else w_t w) = []) as [H1 H2].
   { destruct (w_open w); [split; reflexivity | apply C; reflexivity]. }
@@ -318,14 +337,15 @@ Proof.
           /\ inj_ok (t_inject (if w_open w then tclosed (w_t w) else w_t w))) as [H3 H4].
   { destruct (w_open w); split; assumption. }
   destruct (flookup (w_nclose w) (f_close flt)); wproj;
-    (split; [split; wproj; try assumption; intros _; split; assumption | repeat split; assumption]).
+    (split; [split; wproj; try assumption; [intros _; split; assumption | cbn [chained]; exists (w_t w); auto]
+            | repeat split; assumption]).
 Qed.
 
 Lemma urandom_w cfg0 (w : world) : WGood cfg0 w ->
   WGood cfg0 (snd (urandom w)) /\ w_open (snd (urandom w)) = w_open w /\ w_queue (snd (urandom w)) = w_queue w
   /\ w_t (snd (urandom w)) = w_t w /\ w_trace (snd (urandom w)) = w_trace w /\ w_dead (snd (urandom w)) = w_dead w.
 Proof.
-  intros [A B C]. unfold urandom. destruct (w_rands w); wproj; (split; [split; wproj; assumption | repeat split]).
+  intros [A B C D]. unfold urandom. destruct (w_rands w); wproj; (split; [split; wproj; assumption | repeat split]).
 Qed.
 
 (* ================================================================ driver functions: reachable states, library exceptions *)
@@ -819,8 +839,8 @@ Qed.
 End World.
 
 (* the start of every run is good *)
-Lemma start_good {S} (app : S) cfg inj rands route : inj_ok inj ->
-  Good cfg (init_world (start_target cfg inj app) rands, init_dstate route).
+Lemma start_good {S} (h : handler S) (app : S) cfg inj rands route : inj_ok inj ->
+  Good h cfg (init_world (start_target cfg inj app) rands, init_dstate route).
 Proof.
   intros Hinj. split.
   - split; cbn; auto.
